@@ -41,7 +41,7 @@ class Sc:
 
     def __init__(self, ctype: str, flavor: str, max_connections: int = 2, resp_delay: float = 1.0,
                  timeouts: dict | None = None, retries: int = 0, keepalive_expiry: float | None = None,
-                 n_probe: int = 3, legacy_proxy: bool = False, log_events: bool = True) -> None:
+                 n_probe: int = 3, legacy_proxy: bool = False, log_events: bool = True, interim: bool = False) -> None:
         t = TYPES[ctype]
         self.ctype = ctype
         self.max_connections = max_connections
@@ -60,7 +60,9 @@ class Sc:
             body = b"echo:%b:tr%d:n%d:%b:" % (tok, req.tr, req.ordinal, origin.name.encode())
             body += b"#" * 3000
             return Resp(200, b"OK", [(b"X-Echo", tok)], body, delay=self.resp_delay, chunks=[1000, 1000, 2000],
-                        framing="chunked" if req.proto == "h1" else "cl")
+                        framing="chunked" if req.proto == "h1" else "cl",
+                        interim=[(100, b"Continue", []), (103, b"Early Hints", [(b"Link", b"</s.css>; rel=preload")])]
+                        if interim else None)
 
         self.responder = responder
         reg = t.get("proxy") is None
@@ -157,7 +159,8 @@ async def hold_body(sc: Sc, call: str, host: str, hold: float):
     return resp.status, b"".join(chunks)[:40]
 
 
-CONTEXTS = ["alone", "queued-behind-same", "queued-behind-other", "victim-queued", "shared-h2"]
+CONTEXTS = ["alone", "queued-behind-same", "queued-behind-other", "victim-queued", "shared-h2", "co-joins-connecting",
+            "victim-joins-connecting"]
 
 
 def contexts_for(ctype: str, flavor: str):
@@ -166,6 +169,9 @@ def contexts_for(ctype: str, flavor: str):
     out = ["alone", "queued-behind-same", "queued-behind-other", "victim-queued"]
     if TYPES[ctype].get("http2") and ctype != "maybe-h2":
         out.append("shared-h2")
+    if TYPES[ctype].get("http2") and TYPES[ctype]["scheme"] == "https":
+        # several requests assigned to ONE connection while it is still being established (slow connect / TLS)
+        out += ["co-joins-connecting", "victim-joins-connecting"]
     return out
 
 
@@ -177,6 +183,8 @@ async def run_injected(flavor: str, ctype: str, shape: str, context: str, inject
     maxc = 2 if context in ("alone", "shared-h2") else 1
     sc = Sc(ctype, flavor, max_connections=maxc, **(sc_kw or {}))
     net = sc.net
+    if context in ("co-joins-connecting", "victim-joins-connecting"):
+        net.latency = lambda kind, idx: 0.3 if kind in ("connect", "start_tls") else 0.0
     res = {"sc": sc, "outcomes": {}, "K": 0, "inj_phase": None, "fired": False}
     style, k = None, None
     if inject is not None and inject[0] == "fault":
@@ -236,6 +244,20 @@ async def run_injected(flavor: str, ctype: str, shape: str, context: str, inject
                         await anyio.sleep(0.1)
                         await victim()
                     tg.start_soon(vlater)
+                elif context == "co-joins-connecting":
+                    tg.start_soon(victim)
+
+                    async def later2():
+                        await anyio.sleep(0.1)
+                        return await victim_body(sc, "get", "co", "o.test")
+                    tg.start_soon(co, "co", later2)
+                elif context == "victim-joins-connecting":
+                    tg.start_soon(co, "co", lambda: victim_body(sc, "get", "co", "o.test"))
+
+                    async def vlater3():
+                        await anyio.sleep(0.1)
+                        await victim()
+                    tg.start_soon(vlater3)
                 elif context == "shared-h2":
                     tg.start_soon(co, "co", lambda: hold_body(sc, "co", "o.test", 3.0))
 
